@@ -34,6 +34,7 @@ NOT_COVERED = ["termination (an endless EINTR storm spins forever)", "size < 0 f
                "but 'it is the first occurrence' is proved only for CRLF and the 7-byte ElastiCache token (symbolic-token VC undecided "
                "by z3 and cvc5 within budget; clause withdrawn, not assumed)"]
 BUDGET = {"quick": 40, "thorough": 180}
+DEPENDS = ["C19"]      # the ElastiCache configuration reader is the caller of _readsegment with the multi-byte end token
 CRLF = z3.StringVal("\r\n")
 CR = z3.StringVal("\r")
 
